@@ -105,6 +105,10 @@ pub trait Campaign: Sync {
     fn seeded(&self) -> Vec<Self::Scenario> {
         vec![]
     }
+    /// whether explicit scenarios are minimised too (they usually are minimal already)
+    fn minimise_seeded(&self) -> bool {
+        false
+    }
     /// text searched by known-findings matchers (program sources etc.)
     fn haystack(&self, sc: &Self::Scenario) -> String {
         serde_json::to_string(sc).unwrap_or_default()
@@ -255,7 +259,7 @@ pub fn worker<C: Campaign>(c: &C, tier: Tier, master: u64, shard: u64, shards: u
             (Some(v), _) => {
                 let done = minimised_per_invariant.entry(v.invariant.clone()).or_insert(0);
                 *done += 1;
-                if hashes_only || *done > 2 || idx < 0 {
+                if hashes_only || *done > 2 || (idx < 0 && !c.minimise_seeded()) {
                     // only the first two violations of an invariant per shard are minimised; explicit seeds are minimal already
                     let _ = writeln!(out, "V {}", json!({"run": idx, "invariant": v.invariant, "detail": v.detail, "tried": 0, "trace_hash": o.trace_hash, "haystack": c.haystack(&sc), "scenario": sc_json}));
                 } else {
